@@ -136,12 +136,33 @@ class OpPaths:
         """Split a branch on a whole `a && b` / `a || b` value (evaluated in a join block)
         into facts about its operands, using which operand blocks this path went through.
         Returns (list of (cond, pol), feasible)."""
-        from flow import unwrap_casts
+        from flow import unwrap_casts, defs_of
         c = unwrap_casts(cond)
+
+        def stored_logical(x):
+            """`const bool ok = a && b;` — a never re-assigned boolean local holding a logical expression"""
+            x = unwrap_casts(fn.resolve(x) if isinstance(x, dict) and x.get('k') == 'elem' else x)
+            if isinstance(x, dict) and x.get('k') == 'ref' and x.get('dk') == 'local':
+                d = defs_of(fn)
+                init = d.decl.get(x.get('d'))
+                if init is not None and not d.assigned.get(x['d']):
+                    ini = unwrap_casts(fn.resolve(init) if isinstance(init, dict) and init.get('k') == 'elem' else init)
+                    if isinstance(ini, dict) and (ini.get('k') == 'bin' and ini.get('op') in ('&&', '||')
+                                                  or ini.get('k') == 'un' and ini.get('op') == '!'):
+                        return ini
+            return None
+        st = stored_logical(c)
+        if st is not None:
+            return OpPaths._logical_conds(fn, visited, st, pol)
         if isinstance(c, dict) and c.get('k') == 'un' and c.get('op') == '!':
             inner = unwrap_casts(c.get('e'))
+            st = stored_logical(inner)
+            if st is not None:
+                inner = st
             if isinstance(inner, dict) and inner.get('k') == 'bin' and inner.get('op') in ('&&', '||'):
                 return OpPaths._logical_conds(fn, visited, inner, 'F' if pol == 'T' else 'T')
+            if st is not None and isinstance(inner, dict) and inner.get('k') == 'un' and inner.get('op') == '!':
+                return OpPaths._logical_conds(fn, visited, inner.get('e'), pol)
         if not (isinstance(c, dict) and c.get('k') == 'bin' and c.get('op') in ('&&', '||')):
             return [(cond, pol)], True
         r = c.get('r')
